@@ -228,23 +228,28 @@ def check_wiring(F, rep, q):
     w = wh(fn["span"])
     # which local receives Some(item) under sh_type == K
     by_const = {}
+    arms = []      # (constant, the header whose sh_type is tested, block entered when sh_type == constant)
     for b, d in an.switches.items():
-        if b not in an.entry or not (d.op == "bin" and d.args[0] == "Eq" and d.args[2].op == "const"):
+        if b not in an.entry:
             continue
-        lhs = d.args[1]
-        if not (lhs.op == "proj" and lhs.args[1][2] == "sh_type"):
-            continue
-        item = lhs.args[0]
         t = an.blocks[b]["term"]
-        true_succ = [tb for vv, tb in t["targets"] if int(vv) != 0] or [t["otherwise"]]
-        tb = t["otherwise"] if not any(int(vv) != 0 for vv, _ in t["targets"]) else true_succ[0]
+        if d.op == "bin" and d.args[0] == "Eq" and d.args[2].op == "const" and d.args[1].op == "proj" and d.args[1].args[1][2] == "sh_type":
+            # `if shdr.sh_type == K`
+            true_succ = [tb for vv, tb in t["targets"] if int(vv) != 0] or [t["otherwise"]]
+            tb = t["otherwise"] if not any(int(vv) != 0 for vv, _ in t["targets"]) else true_succ[0]
+            arms.append((d.args[2].args[1], d.args[1].args[0], tb))
+        elif d.op == "proj" and d.args[1][2] == "sh_type":
+            # `match shdr.sh_type { K => .., }`
+            for vv, tb in t["targets"]:
+                arms.append((int(vv), d.args[0], tb))
+    for K_, item, tb in arms:
         env = an.exit_env.get(tb, {})
         for (root, path), val in env.items():
             if root[0] == "L" and not path and val.op == "agg" and val.args[3] == "Some" and val.args[4] and \
                     (val.args[4][0] is item or val.args[4][0] is T.deref(item) or norm(val.args[4][0]) == norm(item)):
                 before = an.entry[tb].env.get((root, path))
                 if before is not val:
-                    by_const.setdefault(d.args[2].args[1], set()).add(root[1])
+                    by_const.setdefault(K_, set()).add(root[1])
     n = 0
     for c in an.calls():
         kname = WIRING.get(c.callee_qual)
